@@ -269,7 +269,7 @@ func genCaseFor(p Profile) func(t *rapid.T) Case {
 		nInit := rapid.IntRange(0, 5).Draw(t, "ninit")
 		for i := 0; i < nInit; i++ {
 			c.Ops = append(c.Ops, Op{K: "fibins", N: rapid.SampledFrom(initNames).Draw(t, "iname"),
-				F: rapid.IntRange(1, nf).Draw(t, "iface"), Cost: uint64(rapid.SampledFrom([]int{0, 1, 1, 2, 10}).Draw(t, "icost"))})
+				F: rapid.IntRange(1, nf).Draw(t, "iface"), Cost: rapid.SampledFrom([]uint64{0, 1, 1, 2, 10, 0, 1, 2, 10, 1 << 40, 1<<63 + 5, 1<<64 - 1}).Draw(t, "icost")})
 		}
 		if rapid.IntRange(0, 2).Draw(t, "imc") == 0 {
 			c.Ops = append(c.Ops, Op{K: "setstrat", N: rapid.SampledFrom([]string{"/", "/a", "/localhost"}).Draw(t, "isn"), Strat: 1})
@@ -722,7 +722,7 @@ func genCaseFor(p Profile) func(t *rapid.T) Case {
 				}
 				switch r.A % 8 {
 				case 0, 1, 2, 3:
-					op = Op{K: "fibins", N: n, F: anyFace(r.E), Cost: uint64([]int{0, 1, 1, 2, 10}[r.F2%5])}
+					op = Op{K: "fibins", N: n, F: anyFace(r.E), Cost: []uint64{0, 1, 1, 2, 10, 0, 1, 2, 1 << 40, 1<<63 + 5, 1<<64 - 1}[r.F2%11]}
 				case 4:
 					op = Op{K: "fibrm", N: n, F: pickUp(r.E)}
 					// prefer an existing next hop
